@@ -38,6 +38,14 @@ theorem EnvOkG.suffix {o : Option Nat} {u u' : List Blk} (h : EnvOkG o u') (hs :
 /-- number of cells the blocks in use were cut into (`usable size / node size` each) -/
 def blockCells (ns : Nat) (used : List Blk) : Nat := (used.map fun b => b.usable.size / ns).sum
 
+/-- the cells the blocks in use were cut into: `usable size / node size` cells from the start of each usable part -/
+def blockCellList (ns : Nat) (used : List Blk) : List Nat :=
+  used.flatMap fun b => blockNodes b.usable.base ns (b.usable.size / ns)
+
+@[simp] theorem blockCellList_cons (ns : Nat) (b : Blk) (used : List Blk) :
+    blockCellList ns (b :: used) = blockNodes b.usable.base ns (b.usable.size / ns) ++ blockCellList ns used := by
+  simp [blockCellList]
+
 @[simp] theorem blockCells_cons (ns : Nat) (b : Blk) (used : List Blk) :
     blockCells ns (b :: used) = b.usable.size / ns + blockCells ns used := by simp [blockCells]
 
@@ -58,6 +66,9 @@ structure PInvG (ns : Nat) (o : Option Nat) (p : Pool) (live : List (Nat × Nat)
   cell : CellInv ns p.list.cells p.arena.used live
   /-- **exact accounting**: every cell of every block in use is either free or part of a live allocation -/
   full : p.list.cells.length + (liveCells ns live).length = blockCells ns p.arena.used
+  /-- **conservation**: free cells + cells of live allocations are, as a multiset, exactly the cells the blocks in use
+  were cut into -/
+  conserve : (p.list.cells ++ liveCells ns live).Perm (blockCellList ns p.arena.used)
 
 /-- a range inside the usable part of a used block lies outside the list object -/
 theorem outObj_of_inBlk {o : Option Nat} {used : List Blk} (ho : ObjOut o used) {b : Blk} (hb : b ∈ used)
@@ -85,8 +96,8 @@ theorem Pool.allocateBlock_invG {ns : Nat} {o : Option Nat} {p : Pool} {live : L
   | fail a e ev env' =>
     simp only [harena] at hb hsub ⊢
     have hu := Arena.allocateBlock_fail harena
-    exact ⟨⟨h.nsEq, h.objEq, h.sinv, h.cell.mono hb.1 (fun b hb => hsub hb), by show _ = blockCells ns a.used; rw [hu]; exact h.full⟩,
-      by simp⟩
+    exact ⟨⟨h.nsEq, h.objEq, h.sinv, h.cell.mono hb.1 (fun b hb => hsub hb), by show _ = blockCells ns a.used; rw [hu]; exact h.full,
+      by show List.Perm _ (blockCellList ns a.used); rw [hu]; exact h.conserve⟩, by simp⟩
   | ok a ub ev env' =>
     simp only [harena] at hb hsub ⊢
     obtain ⟨blk, h1, rfl⟩ := Arena.allocateBlock_ok harena
@@ -120,7 +131,8 @@ theorem Pool.allocateBlock_invG {ns : Nat} {o : Option Nat} {p : Pool} {live : L
       intro hz r hr hno
       rw [hr]
       exact ⟨⟨h.nsEq, h.objEq, h.sinv, by show CellInv ns p.list.cells a.used live; rw [h1]; exact h.cell.mono hbu.1 (by simp +contextual),
-        by show _ = blockCells ns a.used; rw [h1, blockCells_cons, hz, Nat.zero_add]; exact h.full⟩, hno⟩
+        by show _ = blockCells ns a.used; rw [h1, blockCells_cons, hz, Nat.zero_add]; exact h.full,
+        by show List.Perm _ (blockCellList ns a.used); rw [h1, blockCellList_cons, hz]; exact h.conserve⟩, hno⟩
     cases hins : p.list.insert cfg blk.usable.base blk.usable.size with
     | handler k =>
       rcases htot with ⟨l', hl'⟩ | hz
@@ -133,7 +145,7 @@ theorem Pool.allocateBlock_invG {ns : Nat} {o : Option Nat} {p : Pool} {live : L
     | ok l' =>
       obtain ⟨hperm, hsame⟩ := AnyList.insert_spec cfg h.sinv (by rw [h.nsEq]; exact hnsP) hap hout (by omega) hins
       rw [h.nsEq] at hperm
-      refine ⟨⟨hsame.ns.trans h.nsEq, hsame.obj.trans h.objEq, hsame.sinv, ?_, ?_⟩, by simp⟩
+      refine ⟨⟨hsame.ns.trans h.nsEq, hsame.obj.trans h.objEq, hsame.sinv, ?_, ?_, ?_⟩, by simp⟩
       · show CellInv ns l'.cells a.used live
         rw [h1]
         exact h.cell.insertCells hbu.1 (blockNodes_pairwise _ _ _)
@@ -141,6 +153,11 @@ theorem Pool.allocateBlock_invG {ns : Nat} {o : Option Nat} {p : Pool} {live : L
       · show l'.cells.length + _ = blockCells ns a.used
         rw [h1, blockCells_cons, hperm.length_eq, List.length_append, blockNodes_length, ← h.full]
         omega
+      · show (l'.cells ++ liveCells ns live).Perm (blockCellList ns a.used)
+        rw [h1, blockCellList_cons]
+        refine (List.Perm.append_right _ hperm).trans ?_
+        rw [List.append_assoc]
+        exact List.Perm.append_left _ h.conserve
 
 /-! ### taking from / giving to the list, at pool level -/
 
@@ -149,21 +166,29 @@ theorem PInvG.alloc {ns : Nat} {o : Option Nat} {p : Pool} {live : List (Nat × 
     PInvG ns o { p with list := l } ((a, bytes) :: live) := by
   obtain ⟨B, h1, h2, hsame⟩ := AnyList.allocate_spec h.sinv ha
   have hc : cellsOf ns bytes = 1 := by simp [cellsOf, hb]
-  refine ⟨hsame.ns.trans h.nsEq, hsame.obj.trans h.objEq, hsame.sinv, ?_, ?_⟩
+  refine ⟨hsame.ns.trans h.nsEq, hsame.obj.trans h.objEq, hsame.sinv, ?_, ?_, ?_⟩
   · exact h.cell.take (A := []) (B := B) (f := a) (bytes := bytes) (by rw [hc, blockNodes_one, h1]; rfl) (by rw [h2]; rfl)
   · show l.cells.length + _ = _
     rw [liveCells_length_cons, hc, h2, ← h.full, h1]
     simp only [List.length_cons]; omega
+  · show (l.cells ++ liveCells ns ((a, bytes) :: live)).Perm _
+    refine List.Perm.trans ?_ h.conserve
+    rw [liveCells_cons, hc, blockNodes_one, h2, h1]
+    exact (perm_take [] B [a] (liveCells ns live))
 
 theorem PInvG.allocBytes {ns : Nat} {o : Option Nat} {p : Pool} {live : List (Nat × Nat)} (h : PInvG ns o p live)
     {l : AnyList} {a bytes : Nat} (ha : p.list.allocateBytes bytes = some (l, some a)) :
     PInvG ns o { p with list := l } ((a, bytes) :: live) := by
   obtain ⟨A, B, h1, h2, hsame⟩ := AnyList.allocateBytes_spec h.sinv (by rw [h.nsEq]; exact h.cell.nsPos) ha
   rw [h.nsEq] at h1
-  refine ⟨hsame.ns.trans h.nsEq, hsame.obj.trans h.objEq, hsame.sinv, h.cell.take h1 h2, ?_⟩
-  show l.cells.length + _ = _
-  rw [liveCells_length_cons, h2, ← h.full, h1]
-  simp only [List.length_append, blockNodes_length]; omega
+  refine ⟨hsame.ns.trans h.nsEq, hsame.obj.trans h.objEq, hsame.sinv, h.cell.take h1 h2, ?_, ?_⟩
+  · show l.cells.length + _ = _
+    rw [liveCells_length_cons, h2, ← h.full, h1]
+    simp only [List.length_append, blockNodes_length]; omega
+  · show (l.cells ++ liveCells ns ((a, bytes) :: live)).Perm _
+    refine List.Perm.trans ?_ h.conserve
+    rw [liveCells_cons, h2, h1]
+    exact perm_take A B _ (liveCells ns live)
 
 /-- postcondition of an allocation function: a returned address is entered in the ledger with `bytes` -/
 def PostG (ns : Nat) (o : Option Nat) (live : List (Nat × Nat)) (bytes : Nat) (r : PRes Pool) : Prop :=
@@ -294,6 +319,14 @@ theorem Pool.tryAllocateArrayBytes_postG {ns : Nat} {o : Option Nat} {p : Pool} 
       exact h.allocBytes hal
     · exact PostG.of_not_ok h (by simp)
 
+/-- cells that come back: `cells' ~ R ++ cells` and `L ~ R ++ L'` give `cells' ++ L' ~ cells ++ L` -/
+theorem give_perm {cells cells' R L L' : List Nat} (h1 : cells'.Perm (R ++ cells)) (h2 : L.Perm (R ++ L')) :
+    (cells' ++ L').Perm (cells ++ L) := by
+  refine (List.Perm.append_right _ h1).trans ?_
+  refine List.Perm.trans ?_ (List.Perm.append_left _ h2.symm)
+  rw [List.append_assoc]
+  exact List.perm_append_comm_assoc R cells L'
+
 /-! ### releases -/
 
 /-- facts about the `i`-th live allocation needed by the list's release functions -/
@@ -319,12 +352,17 @@ theorem Pool.deallocateNode_invG {ns : Nat} {o : Option Nat} {p : Pool} {live : 
   unfold Pool.deallocateNode
   rw [hd]
   simp only [liftList]
-  refine ⟨⟨hsame.ns.trans h.nsEq, hsame.obj.trans h.objEq, hsame.sinv, ?_, ?_⟩, trivial⟩
+  refine ⟨⟨hsame.ns.trans h.nsEq, hsame.obj.trans h.objEq, hsame.sinv, ?_, ?_, ?_⟩, trivial⟩
   · exact h.cell.give hi (by rw [hc, blockNodes_one]; exact hperm)
   · show l'.cells.length + _ = _
     have := liveCells_length_erase (ns := ns) hi
     rw [hperm.length_eq, ← h.full, this, hc]
     simp only [List.length_cons]; omega
+  · show (l'.cells ++ liveCells ns (live.eraseIdx i)).Perm _
+    refine List.Perm.trans ?_ h.conserve
+    have he := liveCells_erase (ns := ns) hi
+    rw [hc, blockNodes_one] at he
+    exact give_perm hperm he
 
 theorem Pool.deallocateBytes_invG {ns : Nat} {o : Option Nat} {p : Pool} {live : List (Nat × Nat)} (cfg : Cfg)
     (h : PInvG ns o p live) (ho : ObjOut o p.arena.used) {i a b : Nat} (hi : live[i]? = some (a, b)) (hb : ns < b) :
@@ -337,7 +375,7 @@ theorem Pool.deallocateBytes_invG {ns : Nat} {o : Option Nat} {p : Pool} {live :
   unfold Pool.deallocateBytes
   rw [hd]
   simp only [liftList]
-  refine ⟨⟨hsame.ns.trans h.nsEq, hsame.obj.trans h.objEq, hsame.sinv, ?_, ?_⟩, trivial⟩
+  refine ⟨⟨hsame.ns.trans h.nsEq, hsame.obj.trans h.objEq, hsame.sinv, ?_, ?_, ?_⟩, trivial⟩
   · rw [h.nsEq] at hperm
     exact h.cell.give hi (by rw [hc]; exact hperm)
   · show l'.cells.length + _ = _
@@ -345,6 +383,12 @@ theorem Pool.deallocateBytes_invG {ns : Nat} {o : Option Nat} {p : Pool} {live :
     have := liveCells_length_erase (ns := ns) hi
     rw [hperm.length_eq, ← h.full, this, hc]
     simp only [List.length_append, blockNodes_length]; omega
+  · show (l'.cells ++ liveCells ns (live.eraseIdx i)).Perm _
+    refine List.Perm.trans ?_ h.conserve
+    rw [h.nsEq] at hperm
+    have he := liveCells_erase (ns := ns) hi
+    rw [hc] at he
+    exact give_perm hperm he
 
 /-! ### one step, a whole history -/
 
@@ -418,7 +462,7 @@ theorem PInvG.fresh (src : Src) (l : AnyList) (arrays : Bool) (hS : l.SInv) (hc 
       apart := by simp [hc]
       freeIn := by intro x hx; simp [hc] at hx
       liveIn := by intro x hx; cases hx },
-    by simp [hc, blockCells]⟩
+    by simp [hc, blockCells], by simp [hc, blockCellList]⟩
 
 /-- the constructor establishes the invariant (whatever its outcome) -/
 theorem Pool.create_invG (cfg : Cfg) (src : Src) (l : AnyList) (arrays : Bool) (env : List (Option Nat))
